@@ -32,6 +32,11 @@ SEEDS = {
     "idn-hostname": ["example.com", "", ".", "a..b", "-a.com", "é.com", "xn--a", "a" * 64 + ".com", "。", "a b",
                      "퟿", "ـ", "a_b"],
 }
+SEEDS["ipv4"] += ["1" * 40 + "e", "3.14159265358979323846264338327950288419716939937510e", "1." * 30 + "x"]
+SEEDS["ipv6"] += ["f" * 40 + "g", "1:" * 30 + "x"]
+SEEDS["date"] += ["2" * 40 + "-", "2020-01-" + "0" * 40 + "x"]
+SEEDS["time"] += ["2147483648:00:00", "00:4294967296:00", "-1:00:00", "99999999999999999999:0:0", "12:00:00" + "0" * 40 + "x"]
+SEEDS["email"] += ["a@@b", "\"a@b\"@c", "user@host@relay"]
 SEEDS["ip-address"] = SEEDS["ipv4"]
 ALPHABET = list("0123456789abcdefABCDEFxXgG.:-/%+_ \n\x00TWZ@()[]{}*?\\,") + ["٤", "１", "²", "١",
                                                                           "\U0001D7D8", "​", "é"]
@@ -247,6 +252,7 @@ def _enum_job(args):
 
 class C13(Prop):
     ID = "C13"
+    WATCHDOG_IS_VIOLATION = True
     QUICK = 5000
     THOROUGH = 40000
     CHUNK = 10000
